@@ -24,6 +24,7 @@ import Mathlib.Analysis.Real.Sqrt
 import Mathlib.Tactic.FieldSimp
 import Mathlib.Tactic.Positivity
 import UxVerif.Lemmas.Area
+import UxVerif.Gen.Defaults
 
 namespace UxVerif.C05
 open UxVerif UxVerif.Area UxVerif.Gen.Quad
@@ -683,5 +684,20 @@ theorem asis_violates_input_independence :
   rw [this]
   exact (ne_of_gt example_area_pos).symm
 
+
+/-! ### the default arguments (regenerated from `inspect.signature` on every run) -/
+
+/-- **the default rule and order name a supported table**, so the accuracy clauses "with the default
+    rule" are about a rule whose exactness theorems above apply; `calculate_total_face_area` uses
+    the same default as `compute_face_areas`. -/
+theorem default_rule_supported :
+    ((Gen.Defaults.compute_face_areas_quadrature_rule = "triangular" ∧
+        Gen.Defaults.compute_face_areas_order.toNat ∈ TRI_ORDERS) ∨
+     (Gen.Defaults.compute_face_areas_quadrature_rule = "gaussian" ∧
+        Gen.Defaults.compute_face_areas_order.toNat ∈ GAUSS_ORDERS)) ∧
+    0 < Gen.Defaults.compute_face_areas_order ∧
+    Gen.Defaults.calculate_total_face_area_quadrature_rule = Gen.Defaults.compute_face_areas_quadrature_rule ∧
+    Gen.Defaults.calculate_total_face_area_order = Gen.Defaults.compute_face_areas_order := by
+  decide
 
 end UxVerif.C05
